@@ -21,8 +21,36 @@ def fmt_arg(x):
     return str(x)
 
 
+def set_order(op, a, b):
+    """iteration order of the Python set of partial results inside udiv/sdiv, as indices into the list of distinct
+    elements in insertion order (the Lean model takes the order as an input; theorems quantify over it)"""
+    try:
+        S = vsa.SI()
+        A, B = vsa.mk(a), vsa.mk(b)
+        if op == "udiv":
+            ds, vs, f = A._ssplit(), B._ssplit(), S._wrapped_unsigned_div
+        else:
+            ds, vs, f = A._psplit(), B._psplit(), S._wrapped_signed_div
+        ins, st = [], set()
+        for d in ds:
+            for v in vs:
+                t = f(d, v)
+                ins.append(t); st.add(t)
+        key = lambda t: (t.bits, t.lower_bound, t.upper_bound, t.stride)  # noqa: E731
+        dist = []
+        for t in ins:
+            if key(t) not in dist:
+                dist.append(key(t))
+        return [dist.index(key(t)) for t in st]
+    except Exception:  # noqa  (the operation itself raises the same way; the model fails before using the order)
+        return [0]
+
+
 def fmt_line(op, args):
-    return "si %s %s" % (op, " | ".join(fmt_arg(x) for x in args))
+    line = "si %s %s" % (op, " | ".join(fmt_arg(x) for x in args))
+    if op in ("udiv", "sdiv"):
+        line += " | " + " | ".join(str(i) for i in set_order(op, args[0], args[1]))
+    return line
 
 
 def canon(r):
@@ -65,7 +93,7 @@ def run_family(ctx, prop, cases, theorems, tests, extra_oracle=None):
     proved = ctx.prove("ClaripyProofs.Props.%s" % prop, theorems, tests=tests, driver_exe="driver_vsa")
     t0 = time.time()
     # ---- real code
-    real = [vsa.run_real(op, args) for op, args, _ in cases]
+    real = [vsa.run_real(op, args) if op in vsa.OPS else vsa.run_query(op, args) for op, args, _ in cases]
     t_real = time.time() - t0
     # ---- model
     lines = [fmt_line(op, args) for op, args, _ in cases]
@@ -155,7 +183,7 @@ def replay_case(ctx, prop, obj, extra_oracle=None):
     r = obj["replay"]
     op = r["op"]
     args = [tuple(x) if isinstance(x, list) else x for x in r["args"]]
-    res = vsa.run_real(op, args)
+    res = vsa.run_real(op, args) if op in vsa.OPS else vsa.run_query(op, args)
     print("case:", fmt_line(op, args))
     print("real code returns:", canon(res), " (recorded: %s)" % r.get("observed"))
     if op in vsa.OPS:
